@@ -502,14 +502,15 @@ theorem ks_ttl_rules (db : KS.Db) (now : Nat) (k v : Bytes) :
     KS.lookup (KS.cmdSet db now [k, v]).1 k = some { val := .str v, deadline := none } ∧
     (∀ a b e, KS.DbOk db → a ≠ b → KS.lookup db a = some e →
       KS.lookup (KS.cmdRename db false [a, b]).1 b = some e ∧ KS.lookup (KS.cmdRename db false [a, b]).1 a = none) ∧
-    (∀ b d, KS.lookup db k = some ⟨.str b, d⟩ → KS.cmdAppend db [k, v] = (KS.insert db k ⟨.str (b ++ v), d⟩, KS.nat (b.length + v.length))) ∧
+    (∀ b d, KS.lookup db k = some ⟨.str b, d⟩ → b.length + v.length ≤ 536870912 →
+      KS.cmdAppend db [k, v] = (KS.insert db k ⟨.str (b ++ v), d⟩, KS.nat (b.length + v.length))) ∧
     (∀ e d, KS.lookup db k = some e → e.deadline = some d →
       KS.lookup (KS.cmdPersist db [k]).1 k = some { e with deadline := none }) := by
   refine ⟨C01.set_clears_ttl db now k v, ?_, ?_, ?_⟩
   · intro a b e hdb hab h
     exact (C01.rename_moves_value_and_ttl db a b e hdb hab h).2
-  · intro b d h
-    exact C01.append_is_concat db k b v d h
+  · intro b d h hl
+    rw [C01.append_is_concat db k b v d h, if_pos hl]
   · intro e d h hd
     simp [KS.cmdPersist, h, hd, KS.lookup_insert_self]
 
